@@ -40,6 +40,10 @@ M.assume('a path is identified with its string and p / name is str(p) + "/" + na
          'joins are cross-checked against pathlib on every run (check `path-model`)')
 
 
+class ArbitraryExecutionError(Exception):
+    """stands for whatever an execution lets escape (used where a callee is trusted to raise "anything")"""
+
+
 # ============================================================================ spec functions (native + symbolic)
 
 def is_dir(p):
@@ -199,6 +203,7 @@ def harness_preserved_cwd(elsewhere, then_raise):
 
 
 M.contract('contracts.C04_sandbox:harness_preserved_cwd',
+           props=('C04', 'C17'),
            params=dict(elsewhere=Str, then_raise=Bool),
            setup=_declare_existing_dir('elsewhere'),
            ensures={'cwd-restored-however-the-body-ends': lambda result: result},
@@ -257,6 +262,7 @@ def rmtree_events(trace):
 
 
 M.contract(P_EXE + ':execute',
+           props=('C04', 'C17'),
            params=dict(test_case=Any_, full_exe_input_conf=Any_, conf_phase_values=Any_, setup_handler=Any_,
                        is_keep_sandbox=Bool),
            returns=PARTIAL_RESULT, event='partial-execution',
@@ -425,6 +431,7 @@ def handler_environs(trace):
 
 
 M.contract(P_EXECUTOR + ':_PartialExecutor.__init__',
+           props=('C04', 'C17'),
            params=dict(self=Inst(_PartialExecutor), conf=CONFIGURATION, test_case=TEST_CASE), inline=True,
            ensures={
                'instruction-settings-environ-is-a-fresh-copy-of-the-configured': lambda self, conf:
@@ -742,7 +749,8 @@ def symbol_copies(trace):
     return [(e[1], trace[i + 1][2]) for i, e in enumerate(trace) if e[0] == 'symbols-copy']
 
 
-M.contract(P_PROC + ':_Executor._exe_conf_that_may_be_updated', params=dict(self=PROC_EXECUTOR), returns=EXE_CONF,
+M.contract(P_PROC + ':_Executor._exe_conf_that_may_be_updated', params=dict(self=PROC_EXECUTOR), inline=True,
+           props=('C04', 'C17'),
            ensures={
                'environ-is-a-fresh-copy': lambda self, result:
                (result.environ is None) if self._exe_conf.environ is None
